@@ -19,7 +19,28 @@ LENS = lambda real: [0, 1, 7, 8, 11, 12, max(0, real - 1), real + 1, (1 << 24) -
 
 class Counter:
     reads = 0
-    maxpos_excess = 0
+    jumps = 0
+    limit = 1 << 60
+    jlimit = 1 << 60
+
+
+class DecodeBudget(BaseException):
+    """Raised from inside the decoder when the linear work budget is exhausted (it would never return)."""
+
+
+def _on_jump(code, src, dst):
+    if dst < src:
+        Counter.jumps += 1
+        if Counter.jumps > Counter.jlimit:
+            Counter.jumps = 0
+            raise DecodeBudget(f"loop budget exhausted in {code.co_qualname}")
+
+
+def arm(n):
+    Counter.reads = 0
+    Counter.jumps = 0
+    Counter.limit = 12 * (n + 8) + 64
+    Counter.jlimit = 200 * (n + 8) + 100_000      # + class-size dependent work of typed decodes (O(defs^2))
 
 
 def instrument():
@@ -36,15 +57,28 @@ def instrument():
         def make(orig):
             def w(self, *a, **k):
                 Counter.reads += 1
-                try:
-                    return orig(self, *a, **k)
-                finally:
-                    pass
+                if Counter.reads > Counter.limit:
+                    Counter.reads = 0
+                    raise DecodeBudget("primitive-read budget exhausted")
+                return orig(self, *a, **k)
             return w
         setattr(U, name, make(orig))
     U.unpack_fopaque = U.unpack_fstring
     U.unpack_enum = U.unpack_int
     U._verif_wrapped = True
+    # loop back-edges anywhere in the codec count against a budget too (loops that read nothing)
+    import sys
+    from .. import simkernel as sk
+    import diameter.message._base as mb
+    import diameter.message.avp.avp as ma
+    import diameter.message.avp.generator as mg
+    import diameter.message.commands._attributes as mattr
+    mon = sys.monitoring
+    mon.use_tool_id(3, "verif-c04")
+    mon.register_callback(3, mon.events.JUMP, _on_jump)
+    for m in (packer, mb, ma, mg, mattr):
+        for co in sk._all_code_objects(m):
+            mon.set_local_events(3, co, mon.events.JUMP)
 
 
 def allowed():
@@ -79,13 +113,26 @@ def nesting_depth(buf, limit=40):
 
 
 def decode_message(buf, ctx, out, plain=False):
+    try:
+        return _decode_message(buf, ctx, out, plain)
+    except DecodeBudget as e:
+        out.append(("decoding-does-not-terminate-in-linear-time", f"{ctx}: {e} ({len(buf)} bytes)"))
+        return None
+    finally:
+        Counter.limit = Counter.jlimit = 1 << 60
+
+
+def _decode_message(buf, ctx, out, plain=False):
     from diameter.message import Message
     ok = allowed()
-    Counter.reads = 0
+    arm(len(buf))
     try:
         m = Message.from_bytes(buf, plain_msg=plain)
     except ok:
         m = None
+    except DecodeBudget as e:
+        out.append(("decoding-does-not-terminate-in-linear-time", f"{ctx}: {e} ({len(buf)} bytes)"))
+        return None
     except RecursionError as e:
         out.append(("message-decode-raises:RecursionError", f"{ctx}"))
         m = None
@@ -105,38 +152,45 @@ def decode_message(buf, ctx, out, plain=False):
         except Exception as e:
             out.append((f"message.avps-raises:{type(e).__name__}", f"{ctx}: {e}"[:300]))
             avps = []
-        walk_values(avps, out, ctx)
-    budget = 40 * (len(buf) + 8) * 4
-    if Counter.reads > budget:
-        out.append(("superlinear-decoding", f"{ctx}: {Counter.reads} primitive reads for {len(buf)} bytes"))
+        try:
+            walk_values(avps, out, ctx)
+        except DecodeBudget as e:
+            out.append(("decoding-does-not-terminate-in-linear-time", f"{ctx}: value access: {e} ({len(buf)} bytes)"))
+    Counter.limit = Counter.jlimit = 1 << 60
     return m
 
 
 def decode_avp(buf, ctx, out):
     from diameter.message.avp import Avp, AvpDecodeError
     from diameter.message.packer import Unpacker
-    Counter.reads = 0
+    arm(len(buf))
     try:
         a = Avp.from_bytes(buf)
     except allowed():
         a = None
+    except DecodeBudget as e:
+        out.append(("decoding-does-not-terminate-in-linear-time", f"{ctx}: {e} ({len(buf)} bytes)"))
+        Counter.limit = Counter.jlimit = 1 << 60
+        return None
     except Exception as e:
         out.append((f"avp-decode-raises:{type(e).__name__}", f"{ctx}: {e}"[:300]))
         a = None
-    if a is not None:
-        walk_values([a], out, ctx)
-    # position never beyond the buffer after a successful AVP
-    u = Unpacker(buf)
     try:
-        Avp.from_unpacker(u)
-        if u.get_position() > len(buf):
-            out.append(("unpacker-position-beyond-buffer", f"{ctx}: position {u.get_position()} > {len(buf)}"))
-    except allowed():
-        pass
-    except Exception as e:
-        out.append((f"avp-from_unpacker-raises:{type(e).__name__}", f"{ctx}: {e}"[:300]))
-    if Counter.reads > 40 * (len(buf) + 8) * 4:
-        out.append(("superlinear-decoding", f"{ctx}: {Counter.reads} primitive reads for {len(buf)} bytes"))
+        if a is not None:
+            walk_values([a], out, ctx)
+        # position never beyond the buffer (and never before its start) after a successful AVP
+        u = Unpacker(buf)
+        try:
+            Avp.from_unpacker(u)
+            if not 8 <= u.get_position() <= len(buf):
+                out.append(("unpacker-position-outside-buffer", f"{ctx}: position {u.get_position()}, buffer {len(buf)}"))
+        except allowed():
+            pass
+        except Exception as e:
+            out.append((f"avp-from_unpacker-raises:{type(e).__name__}", f"{ctx}: {e}"[:300]))
+    except DecodeBudget as e:
+        out.append(("decoding-does-not-terminate-in-linear-time", f"{ctx}: {e} ({len(buf)} bytes)"))
+    Counter.limit = Counter.jlimit = 1 << 60
     return a
 
 
@@ -229,7 +283,7 @@ def work_seed(args):
     for s, h in regions:
         bits = [(p, bit) for p in range(s, s + h) for bit in range(8)]
         for (p1, b1), (p2, b2) in itertools.combinations(bits, 2):
-            if tier != "thorough" and (p1 * 8 + b1 + p2 * 8 + b2) % 3:
+            if tier != "thorough" and (p1 * 8 + b1 + p2 * 8 + b2) % 5:
                 continue
             n += 1
             b = bytearray(wire)
@@ -362,7 +416,7 @@ def run(tier):
     rep.cov.update({"evaluations": total, "distinct_nontrivial": total, "exhaustive": True,
                     "rule": "per seed (one populated message per typed command, depth-1 containers, + an untyped one): every prefix, every "
                             "single-bit flip (all bytes of seeds <= 700 B quick / 1500 B thorough, else all header bytes), pairs of flips in the "
-                            "message header and the first AVP headers (every third pair quick, all thorough), every message/AVP/nested-AVP length "
+                            "message header and the first AVP headers (every fifth pair quick, all thorough), every message/AVP/nested-AVP length "
                             "field x 9 boundary values, typed and plain decode; every AVP type x payload length 0..20 x 9 fills bare and inside "
                             "typed/untyped/unknown commands; all byte strings of length <= 2; 3-symbol tails of length <= 8; chains to depth 16; "
                             "oracle: only packer.Error/AvpDecodeError escape, .value raises only AvpDecodeError, str() never raises, primitive "
